@@ -99,6 +99,14 @@ def gen_param(rnd, case, pts, key, lo, hi, forms, full=False, nonzero=False):
     if form == 'key':
         case['prices'][key] = [val() for _ in range(T)]
         return key
+    if form == 'array':
+        # a numpy array of the length of the asset's window (make_vector multiplies it by np.ones(T) and converts it
+        # like every other form)
+        a0, a1 = case.get('window', [0, T])
+        n = a1 - a0
+        if n < 1:
+            return val()
+        return {'$arr': [val() for _ in range(n)]}
     if form == 'dict':
         d = gen_intervals(rnd, pts, lo, hi, full)
         if nonzero:
@@ -159,10 +167,10 @@ def gen_case(rnd, kind='build', tmax=10):
     elif r < 0.35:
         min_cap = 0.
     else:
-        min_cap = gen_param(rnd, case, pts, 'k_min', 0, 3, ['scalar', 'scalar', 'dict', 'key'], full=True)
+        min_cap = gen_param(rnd, case, pts, 'k_min', 0, 3, ['scalar', 'scalar', 'dict', 'key', 'array'], full=True)
     args['min_cap'] = min_cap
     top = 3.0
-    args['max_cap'] = gen_param(rnd, case, pts, 'k_max', top, top + 8, ['scalar', 'scalar', 'dict', 'key'], full=True)
+    args['max_cap'] = gen_param(rnd, case, pts, 'k_max', top, top + 8, ['scalar', 'scalar', 'dict', 'key', 'array'], full=True)
     if kind == 'build':
         r = rnd.random()
         if r < 0.02:
@@ -222,7 +230,7 @@ def gen_case(rnd, kind='build', tmax=10):
             # (for T = 1 numpy broadcasts the other way round: `Param.broadcastArray` documents that it does not model this)
             args['start_costs'] = {'$arr': [q8(rnd, 0, 9) for _ in range(rnd.choice([n, n, 1, n + 1]) if n > 1 else 1)]}
     if rnd.random() < 0.4:
-        args['running_costs'] = gen_param(rnd, case, pts, 'k_rc', 0, 5, ['scalar', 'dict', 'key'])
+        args['running_costs'] = gen_param(rnd, case, pts, 'k_rc', 0, 5, ['scalar', 'dict', 'key', 'array'])
     # heat
     if heat:
         r = rnd.random()
@@ -247,7 +255,7 @@ def gen_case(rnd, kind='build', tmax=10):
     # fuel
     if fuel:
         if rnd.random() < 0.5 and mode == 'any':
-            args['start_fuel'] = gen_param(rnd, case, pts, 'k_sf', 0, 4, ['scalar', 'scalar', 'dict', 'key'])
+            args['start_fuel'] = gen_param(rnd, case, pts, 'k_sf', 0, 4, ['scalar', 'scalar', 'dict', 'key', 'array'])
         r = rnd.random()
         if r < 0.5:
             args['fuel_efficiency'] = rnd.choice([1., 0.5, 2., 0.25])
@@ -266,7 +274,7 @@ def gen_case(rnd, kind='build', tmax=10):
         if kind == 'build' and rnd.random() < 0.02:
             args['fuel_efficiency'] = 0.
         if rnd.random() < 0.5 and mode != 'plain':
-            args['consumption_if_on'] = gen_param(rnd, case, pts, 'k_ci', 0, 3, ['scalar', 'scalar', 'dict', 'key'])
+            args['consumption_if_on'] = gen_param(rnd, case, pts, 'k_ci', 0, 3, ['scalar', 'scalar', 'dict', 'key', 'array'])
     if kind == 'build':
         if rnd.random() < 0.1 and T >= 2:
             a = rnd.randint(0, T - 1)
@@ -314,6 +322,33 @@ def gen_focus_start_fuel(rnd, tmax=10):
     off0 = rnd.randint(0, 2 * blk - 1)
     case['prices']['m_el'] = [(400. if ((t + off0) // blk) % 2 == 0 else -50.) + q8(rnd, 0, 4) for t in range(T)]
     case['focus'] = 'start_fuel_only'
+    return case
+
+
+def gen_focus_ramp_conv(rnd, tmax=10):
+    """portfolio case with a CHP whose power/heat conversion factor changes over time while heat is produced and a ramp
+    binds: the ramp must then limit the change of the TRUE virtual dispatch power_t + k_t heat_t (each step with its own
+    factor), which `oracle_portfolio` recomputes from x"""
+    for _ in range(400):
+        case = gen_case(rnd, kind='portfolio', tmax=tmax)
+        if case['cls'] == 'CHPAsset' and len(case['prices'].get('m_el', [])) >= 3:
+            break
+    a = case['args']
+    T = len(case['prices']['m_el'])
+    pw = [rnd.choice([0.25, 0.5, 1., 2.]) for _ in range(T)]
+    if rnd.random() < 0.5:
+        pw = sorted(pw)
+    case['prices']['k_conv'] = pw
+    a['conversion_factor_power_heat'] = 'k_conv'
+    a['ramp'] = q8(rnd, 0.25, 1.5)
+    a['max_share_heat'] = rnd.choice([1., 2., 4.])
+    a['min_cap'] = 0.
+    a.pop('min_take', None)
+    a.pop('max_take', None)
+    # heat is worth a lot, power a little: the plant produces heat up to its share, the ramp binds
+    case['prices']['m_heat'] = [200. + q8(rnd, 0, 20) for _ in range(T)]
+    case['prices']['m_el'] = [60. + q8(rnd, 0, 20) for _ in range(T)]
+    case['focus'] = 'ramp_conv'
     return case
 
 
